@@ -89,9 +89,9 @@ CLAIMED = {
   "Lean 4 proof (invariant by induction over histories; refinement of C01/C09) + real-git history runs",
   "DESIGN.md section 7, C08"),
  "C02": (
-  "PARTIAL. Lean 4 theorems C02_* tie bumpver's two hand-written tables together on the REGENERATED tables: every value a part can take is rendered (PART_FORMATS, classified from the formatter's Python AST) to text that the part's own regex (PART_PATTERNS, parsed by the model's regex-syntax parser) consumes in full — alone, before a non-digit continuation (maximal munch; longest alternative first is CHECKED) and, for fixed-width parts, before a digit — and that reads back as the same value: finite calendar domains by kernel evaluation over the whole domain (months, days, days of year, quarters, weeks, two-digit years), unbounded numeric parts and BUILD by induction on digit lists, years by the four-digit lemma, tags over the tag tables; cal_info's outputs lie inside those domains for EVERY valid date (C02_calinfo_domains) except week 53 (C02_week53_witness = known finding), INC1 stays positive under bumps. The composition over whole patterns (separators, adjacency, nested optional groups) is validated, not proved: ops format/parse on grammar patterns and the render -> parse -> fields equal -> re-render identical -> next-run oracle on the implementation, thorough tier every date 2001..2099 through every calendar part.",
-  "Trusted: Lean kernel + standard axioms; translator (both tables, formatter shapes); Python re modelled on the fragment; the pattern-level composition rests on the correspondence and the oracle. Week 53 under WW/0W/UU/0U: known finding F-C02-week53.",
-  "Lean 4 proof per part over regenerated tables (decide +kernel on whole domains, induction on digit lists) + correspondence + round-trip oracle",
+  "Lean 4 theorems C02_*. (1) TABLE TIE on the REGENERATED tables: every value a part can take is rendered (PART_FORMATS, classified from the formatter's Python AST) to text that the part's own regex (PART_PATTERNS, parsed by the model's regex-syntax parser) consumes in full — alone, before a non-digit continuation (maximal munch; longest alternative first is CHECKED) and, for fixed-width parts, before a digit — and that reads back as the same value: finite calendar domains by kernel evaluation over the whole domain, unbounded numeric parts and BUILD by induction on digit lists, years by the four-digit lemma, tags over the tag tables; cal_info's outputs lie inside those domains for EVERY valid date (C02_calinfo_domains) except week 53 (C02_week53_witness = known finding). (2) COMPOSITION over whole patterns, proved on the pattern tree for EVERY well-formed tree (any nesting of optional groups, any literal separators) and EVERY record in the domain of its rendered parts: C02_accepted_in_full (the first success of the compiled regex consumes the whole rendered text and captures exactly the rendered part texts), C02_roundtrip_ast / C02_roundtrip_of_date (read back through parse_field_values_to_vinfo/_to_cinfo with every part equal, all-zero groups omitted again, re-rendered byte for byte; calendar of any valid date), C02_tagCoh_invariant (the coherence hypothesis is preserved by reading and bumping). PARTIAL in one respect: bumpver compiles and renders by string surgery, not through a tree; tree = string pipeline is kernel-proved for the README patterns (C02_readme_tree_tie, C02_readme_patterns_wf) and CHECKED per generated pattern by the driver op ast_tie on every run (93 % of generated (pattern, record) pairs lie inside the theorems' domain; fixed-width parts directly followed by digits and week-only calendars are outside). Oracle on the implementation: render -> parse -> fields equal -> re-render identical -> next run accepts; thorough tier every date 2001..2099 through every calendar part.",
+  "Trusted: Lean kernel + standard axioms; translator (both tables, formatter shapes); Python re modelled on the fragment (tied by compile_search/re_search ops); the tokenizer tie tree <-> string surgery is checked per pattern, not proved in general. Week 53 under WW/0W/UU/0U: known finding F-C02-week53.",
+  "Lean 4 proof: per part over regenerated tables (decide +kernel on whole domains, induction on digit lists) and structural induction over pattern trees with a list-of-successes regex semantics (composition, read-back) + correspondence + round-trip oracle",
   "DESIGN.md section 7, C02"),
  "C20": (
   "PARTIAL. Lean 4 theorems C20_* (23) about the legacy engine over the REGENERATED v1 tables (incl. the run-time composite initialisation, C20_composite_init): per-part table tie as in C02 (finite domains kernel-evaluated through the real format path, unbounded parts by the maximal-munch lemmas, tags), dispatch consistency (C20_dispatch: has_v1_part <-> not is_new_pattern for patterns of documented parts and brace-free text, with the {foo} witness), {pycalver} strictness on the record (YYYYMM never moves back, id grows numerically and lexically: C20_pycalver_strict/_release_tuple/_string/_chain), and strict increase through the gate (C20_gate_greater, C20_test_greater). The composition of parts over whole patterns is validated: ops v1_compile_search/v1_parse/v1_format/v1_incr/dispatch/v1_gate/v1_cli_test, render->parse->re-render oracle, chains of 150 (quick) / 1,000 (thorough) bumps, dispatch spied on incr_dispatch/_is_valid_version/_parse_config, real `bumpver update` on legacy projects.",
